@@ -13,8 +13,11 @@
                                          (never visible in a whole document or selection set: every value sits
                                           inside parentheses or braces that must still be closed)
    With every flag off (rgl_strict) the functions ARE the reference (Parse/RefLenientProofs.v, the rgl_strict_ lemmas);
-   with every flag on (rgl_parser) they are exactly what the parser model accepts without reporting an error
-   (Parse/RefLink*.v).  The first five flags are the five known findings of C05. *)
+   with the flags of rgl_parser they are exactly what the parser model accepts without reporting an error
+   (Parse/RefLink*.v).  The first five flags were the five known findings of C05 (rgl_parser_old: every flag on).
+   Four of them were repaired in /repo (argument(), object_field(), fragment_definition(), schema_extension() now
+   report the error; Parse/Grammar.v follows) and are off in rgl_parser; rgl_rootop_notype is the remaining known
+   finding; rgl_list_eof is proved invisible in whole documents and field sets (Parse/RefLenientEof.v). *)
 From ApolloVerif Require Import Base.Chars Lex.Item Lex.Fun Parse.RefGrammar.
 
 Record rgl_flags := {
@@ -30,6 +33,10 @@ Definition rgl_strict : rgl_flags :=
   {| rgl_arg_novalue := false; rgl_objfield_novalue := false; rgl_rootop_notype := false;
      rgl_desc_fragment := false; rgl_schemaext_empty := false; rgl_list_eof := false |}.
 Definition rgl_parser : rgl_flags :=
+  {| rgl_arg_novalue := false; rgl_objfield_novalue := false; rgl_rootop_notype := true;
+     rgl_desc_fragment := false; rgl_schemaext_empty := false; rgl_list_eof := true |}.
+(* what the parser accepted before the repairs of the known findings of C05: every relaxation on *)
+Definition rgl_parser_old : rgl_flags :=
   {| rgl_arg_novalue := true; rgl_objfield_novalue := true; rgl_rootop_notype := true;
      rgl_desc_fragment := true; rgl_schemaext_empty := true; rgl_list_eof := true |}.
 
